@@ -18,7 +18,8 @@ import (
 // Phases: (1) all three are bridged to their own backends; (2) A is removed through the real frpc (configuration
 // reload) or by stopping the frpc that owns it: B and W must still be bridged to their own backends, A's endpoint
 // is now W's by design (or refused) and must never reach B; (3) A is added again: as (1). Every connection runs
-// the ordinary scripts under the stream / identity / close monitors.
+// the ordinary scripts under the stream / identity / close monitors. Between (1) and (2) two other clients ask, one
+// after the other, for exactly A's route: both must be refused and A, B, W must keep reaching their own backends.
 
 type churnCfg struct {
 	Kind     string `json:"kind"`      // tcpmux | https | httpsraw
@@ -178,6 +179,7 @@ func runChurnCase(c *h.Case, cc *caseCfg, sv *srvInfo) {
 		px, alt      *proxyRT
 		mayRefuse    bool
 		afterRemoval bool
+		afterDup     bool
 	}
 	verify := func(phase string, targets []target) {
 		var wg sync.WaitGroup
@@ -194,7 +196,7 @@ func runChurnCase(c *h.Case, cc *caseCfg, sv *srvInfo) {
 				case "idle":
 					cfg.NUp, cfg.NDown = 0, 0
 				}
-				pl := &plan{cs: cs, px: t.px, cfg: cfg, id: planID, altPx: t.alt, mayRefuse: t.mayRefuse, afterRemoval: t.afterRemoval,
+				pl := &plan{cs: cs, px: t.px, cfg: cfg, id: planID, altPx: t.alt, mayRefuse: t.mayRefuse, afterRemoval: t.afterRemoval, afterDup: t.afterDup,
 					uGotAll: make(chan struct{}), bGotAll: make(chan struct{}), uClosed: make(chan struct{}), uDone: make(chan struct{}), bDone: make(chan struct{}),
 					phase2: make(chan struct{}), uGot2: make(chan struct{}), bGot2: make(chan struct{})}
 				planID++
@@ -233,6 +235,62 @@ func runChurnCase(c *h.Case, cc *caseCfg, sv *srvInfo) {
 	verify("before", []target{{px: A}, {px: B}, {px: W}})
 	if c.Violations() > 0 {
 		return
+	}
+
+	// Duplicate registrations. Another client asks for exactly A's route (same domain, same route user), backed by
+	// its own service X. frps must refuse it, and the refusal must leave A's route alone: A, B and W still reach their
+	// own backends. Then a third client asks again: it must be refused as well (if the first refusal had dropped A's
+	// route this one would be accepted and A's endpoint would be bridged to X).
+	X, xT, err := mk(3, "intruder", A.domain, A.connectHost, A.routeUser)
+	if err != nil {
+		run.Inconclusive("backend listen failed")
+		return
+	}
+	defer X.be.close()
+	c.Data["frpc_intruder"] = common + xT
+	for attempt := 1; attempt <= 2; attempt++ {
+		ic, err := h.StartClientText(prop, common+xT)
+		if err != nil {
+			run.Inconclusive("client config rejected")
+			return
+		}
+		defer ic.Close()
+		phase := ""
+		h.Eventually(30*time.Second, func() bool {
+			phase = ic.ProxyPhase(X.name)
+			return phase == "start error" || phase == "running"
+		})
+		switch phase {
+		case "start error":
+			run.Count("duplicate_registrations_refused", 1)
+		case "running":
+			key := "duplicate-route-registration-accepted"
+			if attempt == 2 {
+				key = "duplicate-route-registration-accepted-after-refused-one"
+			}
+			cs.fail(nil, key, "%s route %s (route user %q) belongs to the running proxy %s; registration attempt %d for the same route by another client was accepted",
+				ch.Kind, A.domain, A.routeUser, A.name, attempt)
+		default:
+			run.Inconclusive("duplicate registration neither refused nor accepted within 30 s")
+			return
+		}
+		verify(fmt.Sprintf("dup%d", attempt), []target{{px: A, afterDup: true}, {px: B, afterDup: true}, {px: W, afterDup: true}})
+		if c.Violations() > 0 {
+			return
+		}
+		ic.Close() // gone before the next step: a retry of this client must not pick up a route that is removed on purpose later
+		if attempt == 1 {
+			h.Eventually(5*time.Second, func() bool {
+				for _, ss := range sv.s.Snapshot().Sessions {
+					for _, n := range ss.Proxies {
+						if n == X.name {
+							return false
+						}
+					}
+				}
+				return true
+			})
+		}
 	}
 
 	// remove the sibling route the way a user would
